@@ -9,6 +9,8 @@ Families
                 bounds (Jensen / Doob) otherwise; NaN nowhere.
   negative_args every bs_* function, d1, d2 and every Greek method of the four BS modules with a negative
                 time to maturity or volatility (scalar-like and mixed tensors): ValueError, never a value.
+  negative_scalars the same entry points with the negative time / volatility given as a python float, int or 0-dim
+                tensor, under both states of torch.distributions' argument validation: ValueError.
   hedger_finite scripted markets (ALL paths over alphabets that end below / at / above the strike; Heston
                 underliers: all joint (spot, variance) paths incl. variance 0; zero-sigma Brownian stock:
                 the constant paths) through Hedger(BlackScholes(d)) and Hedger(WhalleyWilmott(d)):
@@ -101,6 +103,17 @@ def _evaluators():
         lambda s, m, t, v, K: BSLookbackOption(strike=K).delta(s, m, t, v))
     add("BSLookbackOption.forward", "lookback", "delta", True,
         lambda s, m, t, v, K: BSLookbackOption(strike=K)(torch.stack([s, m, t, v], dim=-1)).squeeze(-1))
+    # documented keyword variants: every module delta() whose signature has create_graph
+    import inspect
+    for cls, kind, two in ((BSEuropeanOption, "european", False), (BSEuropeanBinaryOption, "european_binary", False),
+                           (BSAmericanBinaryOption, "american_binary", True), (BSLookbackOption, "lookback", True)):
+        if "create_graph" not in inspect.signature(cls.delta).parameters:
+            continue
+        for cg in (True, False):
+            def call(s, m, t, v, K, cls=cls, two=two, cg=cg):
+                mod = cls(strike=K)
+                return mod.delta(s, m, t, v, create_graph=cg) if two else mod.delta(s, t, v, create_graph=cg)
+            add(f"{cls.__name__}.delta[create_graph={cg}]", kind, "delta", True, call)
     return E
 
 
@@ -234,7 +247,7 @@ def limits(ctx, block):
             if what != "nan":
                 cls += "_" + zn
             shift = _strike_shift(K, dtype)
-            if what == "value" and shift and name in AUTOGRAD_SITES:
+            if what == "value" and shift and name.split("[")[0] in AUTOGRAD_SITES:
                 # finding #13 (C08): autogreek.parse_spot rounds a python-float strike to float32, so the
                 # pricer is evaluated at log-moneyness s + log(K32/K); if that crosses the kink the
                 # autograd delta is the one of the other side (or of a state with spot > running max).
@@ -366,6 +379,69 @@ def negative_args(ctx, block):
                           f"instead of raising ValueError", observed=o.flatten()[:8].tolist(), expected="ValueError",
                           block={"dtype": block["dtype"], "strike": block["strike"], "evals": [name],
                                  "cases": [case]})
+
+
+_SCALAR = {"float": float, "int": int, "tensor0": None}
+
+
+def _scalar(spec, dtype):
+    kind, value = spec
+    if kind == "tensor0":
+        return torch.tensor(value, dtype=dtype)
+    return _SCALAR[kind](value)
+
+
+@family
+def negative_scalars(ctx, block):
+    """Negative time to maturity / volatility given as a PYTHON number or a 0-dim tensor (the calling style of the
+    library's docstrings: bs_european_delta(tensor, 1.0, 0.2)), under a given state of torch.distributions'
+    argument validation: ValueError, never a value."""
+    from torch.distributions import Distribution
+    dtype = DT[block["dtype"]]
+    P = _negative_entry_points()
+    names = block.get("evals") or list(P)
+    K = block["strike"]
+    s = torch.tensor(block["s"], dtype=dtype)
+    m = torch.tensor([max(x, 0.0) + 0.1 for x in block["s"]], dtype=dtype)
+    prev = Distribution._validate_args
+    Distribution.set_default_validate_args(block["validate_args"])
+    try:
+        for name in names:
+            fn = P[name]
+            for case in block["cases"]:
+                # does the entry point take this scalar style at all (with admissible values)?
+                pos = {"t": [case["t"][0], 0.25 if case["t"][0] != "int" else 1], "v": [case["v"][0], 0.2 if case["v"][0] != "int" else 1]}
+                try:
+                    fn(s, m, _scalar(pos["t"], dtype), _scalar(pos["v"], dtype), K)
+                except Exception:
+                    ctx.add("scalar_style_not_accepted", 1)
+                    continue
+                t, v = _scalar(case["t"], dtype), _scalar(case["v"], dtype)
+                which = "t" if case["t"][1] < 0 and not case["v"][1] < 0 else ("v" if case["v"][1] < 0 and not case["t"][1] < 0 else "tv")
+                style = case["t"][0] if case["t"][1] < 0 else case["v"][0]
+                mini = {"dtype": block["dtype"], "strike": K, "s": block["s"], "validate_args": block["validate_args"],
+                        "evals": [name], "cases": [case]}
+                ctx.tick(1, nontrivial=1)
+                try:
+                    out = fn(s, m, t, v, K)
+                except ValueError:
+                    ctx.outcome((name, "ValueError"))
+                    continue
+                except Exception as e:
+                    ctx.violation(name, f"negative_{which}_{style}_raises_{type(e).__name__}",
+                                  f"{name}(t={case['t']}, v={case['v']}) [validate_args={block['validate_args']}]: "
+                                  f"{type(e).__name__}: {str(e)[:160]} instead of ValueError", observed=repr(e)[:200],
+                                  expected="ValueError", block=mini)
+                    continue
+                o = torch.as_tensor(out)
+                res = "silent_nan" if bool(o.isnan().any()) else "accepted"
+                ctx.outcome((name, res))
+                ctx.violation(name, f"negative_{which}_{style}_{res}",
+                              f"{name}(s={block['s']}, t={case['t']}, v={case['v']}) with torch.distributions validate_args="
+                              f"{block['validate_args']} returned {o.flatten()[:4].tolist()} instead of raising ValueError",
+                              observed=o.flatten()[:8].tolist(), expected="ValueError", block=mini)
+    finally:
+        Distribution.set_default_validate_args(prev)
 
 
 # ----------------------------------------------------------------------------
@@ -603,6 +679,20 @@ def run(ctx):
     for dtype in ["float64", "float32"]:
         for K in ([1.0] if ctx.quick else [1.0, 1.3]):
             ctx.run("negative_args", {"dtype": dtype, "strike": K, "cases": ncases})
+
+    # negative python numbers / 0-dim tensors, both states of torch.distributions argument validation
+    scases = []
+    for style in ("float", "int", "tensor0"):
+        negs = [-1, ] if style == "int" else [-0.2, -1e-12]
+        for x in negs:
+            scases.append({"t": [style, x], "v": ["float", 0.2]})
+            scases.append({"t": ["float", 0.25], "v": [style, x]})
+    scases.append({"t": ["float", -1.0], "v": ["float", -0.2]})
+    ctx.alphabet("negative scalar styles", ["float", "int", "tensor0"])
+    for validate in (True, False):
+        for dtype in (["float64"] if ctx.quick else ["float64", "float32"]):
+            ctx.run("negative_scalars", {"dtype": dtype, "strike": 1.0, "s": [-0.5, 0.0, 0.5], "validate_args": validate,
+                                         "cases": scases})
 
     # hedger level
     A = [0.75, 1.0, 1.25]
